@@ -5,6 +5,11 @@
 using namespace nifly;
 
 namespace vh {
+// a weight in 1/1000; what is no number (or out of all proportion) is -1: no weight is
+static long long w1000(double w) {
+	if (!(w == w) || w > 1000.0 || w < -1000.0) return -1;
+	return (long long) llround(w * 1000.0);
+}
 namespace {
 // access to the protected segmentation of a sub-index shape without casting the object to a type it does not have:
 // a derived class may form the pointer to the member, which applies to any BSSubIndexTriShape
@@ -149,7 +154,7 @@ std::string projectShape(NifFile& nif, NiShape* shape, ContentIds& ids) {
 		JArr one;
 		for (auto& kv : sorted) {
 			JArr p;
-			p.add((long long) kv.first).add((long long) llround(kv.second * 1000.0));
+			p.add((long long) kv.first).add((long long) w1000(kv.second));
 			one.add(p);
 		}
 		jw.add(one);
@@ -178,7 +183,7 @@ std::string projectShape(NifFile& nif, NiShape* shape, ContentIds& ids) {
 				JArr one;
 				for (int k = 0; k < 4; k++) {
 					JArr p;
-					p.add((long long) v.weightBones[k]).add((long long) llround(double(v.weights[k]) * 1000.0));
+					p.add((long long) v.weightBones[k]).add((long long) w1000(double(v.weights[k])));
 					one.add(p);
 				}
 				vw.add(one);
@@ -215,7 +220,7 @@ std::string projectShape(NifFile& nif, NiShape* shape, ContentIds& ids) {
 				}
 				for (auto& w : p.vertexWeights) {
 					JArr q;
-					q.add((long long) llround(w.w1 * 1000.0)).add((long long) llround(w.w2 * 1000.0)).add((long long) llround(w.w3 * 1000.0)).add((long long) llround(w.w4 * 1000.0));
+					q.add((long long) w1000(w.w1)).add((long long) w1000(w.w2)).add((long long) w1000(w.w3)).add((long long) w1000(w.w4));
 					pw.add(q);
 				}
 				jp.raw("bi", bi.done()).raw("pw", pw.done());
